@@ -28,10 +28,16 @@ import warnings
 class InvalidScatterer(Exception):
     def __init__(self, scatterer, message):
         self.scatterer = scatterer
+        self.message = message
         super().__init__(
             "Invalid scatterer of type " +
             self.scatterer.__class__.__name__ +
             ".\n" + message)
+
+    def __reduce__(self):
+        # (picklable: a refusal raised in a worker process must reach the
+        # parent, or the pool waits for ever)
+        return (self.__class__, (self.scatterer, self.message))
 
 class OverlapWarning(UserWarning):
     def __init__(self, scatterer, overlaps):
@@ -49,9 +55,13 @@ class TheoryNotCompatibleError(Exception):
         message = (self.theory.__class__.__name__ +
                    " scattering theory can't handle scatterers of type " +
                     self.scatterer.__class__.__name__)
+        self.reason = reason
         if reason is not None:
-            message += " because: " + message
+            message += " because: " + reason
         super().__init__(message)
+
+    def __reduce__(self):
+        return (self.__class__, (self.theory, self.scatterer, self.reason))
 
 class MissingParameter(Exception):
     def __init__(self, parameter_name):
